@@ -271,11 +271,13 @@ def run_stream(stream, args, res, seed, tier, model_stream=None, timeout=3000, l
     return compare_lines(out.splitlines(), model_stream or stream, res, label)
 
 
-def compare_lines(lines, model_stream, res, label, ignore_oracle=False):
+def compare_lines(lines, model_stream, res, label, ignore_oracle=False, only_tag=None):
     inputs, outputs = [], []
     for line in lines:
         if line.startswith("#ORACLE-FAIL\t"):
             if ignore_oracle:   # this stream's oracle belongs to another property
+                continue
+            if only_tag is not None and only_tag not in line:
                 continue
             _, what, replay = (line.split("\t", 2) + ["", ""])[:3]
             res.violations.append((f"[{label}] {what}", replay.replace("\\n", "\n")))
